@@ -210,4 +210,719 @@ theorem op_rule_sound (hT : L.tablesTotalB = true) (hM : M.Interp L)
         simp [eval]; exact hv
       · intro B' hB' _; simp [Sent.rhs?] at hB'; subst hB'; rfl
 
+/-! ### modal rules -/
+
+/-- satisfaction of a node only depends on σ at the node's own world labels -/
+theorem satNode_congr_sigma (e : Env M.D) (σ σ' : Nat → M.W) (n : Node)
+    (h : ∀ x ∈ n.worldsSem, σ x = σ' x) : satNode L M e σ n ↔ satNode L M e σ' n := by
+  cases n with
+  | sent s d w =>
+    cases w with
+    | none => simp [satNode, h 0 (by simp [Node.worldsSem])]
+    | some w => simp [satNode, h w (by simp [Node.worldsSem])]
+  | access a b => simp [satNode, h a (by simp [Node.worldsSem]), h b (by simp [Node.worldsSem])]
+  | flag _ => simp [satNode]
+  | ellipsis => simp [satNode]
+
+theorem satB_update_fresh (e : Env M.D) (σ : Nat → M.W) (b : Branch) (w' : Nat) (x : M.W)
+    (hf : w' ∉ b.worlds) (h : SatB L M e σ b) :
+    SatB L M e (fun y => if y = w' then x else σ y) b := by
+  intro n hn
+  refine (satNode_congr_sigma e σ _ n ?_).1 (h n hn)
+  intro y hy
+  have : y ≠ w' := by
+    rintro rfl
+    exact hf (List.mem_flatMap.2 ⟨n, hn, hy⟩)
+  simp [this]
+
+theorem mProfiles_mem (hM : M.Interp L) (hT : L.tablesTotalB = true) (e : Env M.D) (w : M.W) (A : Sent) :
+    profile L.T (fun w' => M.R w w') (fun w' => eval L M e w' A) ∈ L.mProfiles := by
+  have hp := profile_mem_profiles L.T (fun w' => M.R w w') (fun w' => eval L M e w' A)
+  unfold LogicData.mProfiles
+  by_cases he : L.emptyAccessOk = true
+  · unfold LogicData.emptyAccessOk at he
+    cases hk : L.frame <;> simp [hk] at he <;> simpa [hk] using hp
+  · obtain ⟨w', hw'⟩ := succ_of_frame hM.frame (by simpa using he) w
+    have hne : profile L.T (fun w' => M.R w w') (fun w' => eval L M e w' A) ≠ [] := by
+      intro hnil
+      have : eval L M e w' A ∈ profile L.T (fun w' => M.R w w') (fun w' => eval L M e w' A) :=
+        mem_profile.2 ⟨eval_mem_vals L hT M hM A e w', w', hw', rfl⟩
+      rw [hnil] at this; cases this
+    unfold LogicData.emptyAccessOk at he
+    cases hk : L.frame <;> simp [hk] at he <;>
+      simp [hk, LogicData.nonemptyProfiles, List.mem_filter, hp, hne]
+
+/-- nodes produced for a modal rule branch: same-world part -/
+theorem mBranch_nodes_sat (hT : L.tablesTotalB = true) (hM : M.Interp L) (hm : L.modal = true)
+    (k : RuleKey) (mo : Op1) (hmo : mo.isModal = true) (A : Sent) (var : Nat × Nat) (e : Env M.D)
+    (σ : Nat → M.W) (w0 : Nat) (wo : Option Nat) (br : List AddT) (g : List Node)
+    (hsame : L.mBranchSame mo k (profile L.T (fun w' => M.R (σ w0) w') (fun w' => eval L M e w' A)) br = true)
+    (hother : ∀ w', wo = some w' → LogicData.mBranchHasOther br = true →
+        M.R (σ w0) (σ w') ∧ L.mBranchOther (eval L M e (σ w') A) br = true)
+    (hi : instAdds (.op1 mo A) A none none var (some w0) wo br = some g) :
+    ∀ n ∈ g, satNode L M e σ n := by
+  intro n hn
+  obtain ⟨ad, had, hf⟩ := mapOpt_mem_bwd hi n hn
+  cases ad with
+  | access =>
+    simp only at hf
+    cases wo with
+    | none => simp at hf
+    | some w' =>
+      simp at hf; subst hf
+      exact (hother w' rfl (List.any_eq_true.2 ⟨_, had, rfl⟩)).1
+  | node nt =>
+    simp only at hf
+    split at hf
+    · cases hf
+    · next s' hs' =>
+      by_cases hoth : nt.other = true
+      · simp [hoth] at hf
+        cases wo with
+        | none => simp at hf
+        | some w' =>
+          simp at hf; subst hf
+          have h2 := (hother w' rfl (List.any_eq_true.2 ⟨_, had, by simpa using hoth⟩)).2
+          simp only [LogicData.mBranchOther, List.all_eq_true] at h2
+          have h3 := h2 _ had
+          simp [hoth] at h3
+          obtain ⟨v, hv, hsv⟩ := satOpt_some h3
+          have := evalPt_inst (L := L) (M := M) (.op1 mo A) A var e (σ w') nt.tm s' v hs' hv
+          simp [satNode, this, hsv]
+      · simp [hoth] at hf; subst hf
+        simp only [LogicData.mBranchSame, List.all_eq_true] at hsame
+        have h3 := hsame _ had
+        simp [hoth] at h3
+        obtain ⟨v, hv, hsv⟩ := satOpt_some h3
+        have := evalMSame_inst (L := L) (M := M) hT hM hm mo hmo A var e (σ w0) nt.tm s' v hs' hv
+        simp [satNode, this, hsv]
+
+/-- modal rules: a satisfied target node has a satisfied extension, possibly after choosing the
+    structure's world for a fresh label -/
+theorem modal_rule_sound (hT : L.tablesTotalB = true) (hM : M.Interp L) (hm : L.modal = true)
+    {s : Sent} {d : Option Bool} {w0 : Nat} {mo : Op1} {ng : Bool} {A : Sent} {r : Rule}
+    (hmo : mo.isModal = true)
+    (hd : s.decomp = some (.op1 mo, ng, .op1 mo A))
+    (hr : L.ruleSoundB ⟨.op1 mo, ng, d⟩ r = true)
+    (b : Branch) (hnode : Node.sent s d (some w0) ∈ b.nodes) (var : Nat × Nat) (wo : Option Nat)
+    (hwit : match r.witness with
+      | .none => wo = none
+      | .newWorld => ∃ w', wo = some w' ∧ w' ∉ b.worlds
+      | .eachWorld => ∃ w', wo = some w' ∧ Node.access w0 w' ∈ b.nodes
+      | _ => True)
+    {gs : List (List Node)} (hgs : mapOpt (instAdds (.op1 mo A) A none none var (some w0) wo) r.branches = some gs)
+    (e : Env M.D) (σ : Nat → M.W) (hsb : SatB L M e σ b) :
+    ∃ σ' : Nat → M.W, SatB L M e σ' b ∧ ∃ g ∈ gs, ∀ n ∈ g, satNode L M e σ' n := by
+  have hn := hsb _ hnode
+  simp only [satNode, Option.getD_some] at hn
+  rw [eval_decomp hd, eval_modal hm e _ mo hmo A] at hn
+  generalize hP : profile L.T (fun w' => M.R (σ w0) w') (fun w' => eval L M e w' A) = P at hn
+  have hPm : P ∈ L.mProfiles := hP ▸ mProfiles_mem hM hT e (σ w0) A
+  have hns : L.nodeSatM mo ⟨.op1 mo, ng, d⟩ P = true := by simpa [LogicData.nodeSatM] using hn
+  simp only [LogicData.ruleSoundB, hmo, ↓reduceIte, List.all_eq_true, Bool.or_eq_true, Bool.not_eq_true'] at hr
+  have hr := hr P hPm
+  rcases hr with hr | hr
+  · rw [hr] at hns; cases hns
+  cases hw : r.witness with
+  | none =>
+    simp only [hw] at hwit hr
+    subst hwit
+    obtain ⟨br, hbr, hsat⟩ := List.any_eq_true.1 hr
+    simp only [Bool.and_eq_true, Bool.not_eq_true'] at hsat
+    obtain ⟨g, hg, hig⟩ := mapOpt_mem_fwd hgs br hbr
+    refine ⟨σ, hsb, g, hg, ?_⟩
+    exact mBranch_nodes_sat hT hM hm _ mo hmo A var e σ w0 none br g (hP ▸ hsat.2) (by intro w' h; cases h) hig
+  | newWorld =>
+    simp only [hw] at hwit hr
+    obtain ⟨w', rfl, hfresh⟩ := hwit
+    obtain ⟨br, hbr, hsat⟩ := List.any_eq_true.1 hr
+    simp only [Bool.and_eq_true, Bool.or_eq_true, Bool.not_eq_true'] at hsat
+    obtain ⟨hsame, hoth⟩ := hsat
+    obtain ⟨g, hg, hig⟩ := mapOpt_mem_fwd hgs br hbr
+    have hw0 : w0 ≠ w' := by
+      rintro rfl
+      exact hfresh (List.mem_flatMap.2 ⟨_, hnode, by simp [Node.worldsSem]⟩)
+    rcases hoth with hoth | hoth
+    · refine ⟨σ, hsb, g, hg, ?_⟩
+      exact mBranch_nodes_sat hT hM hm _ mo hmo A var e σ w0 (some w') br g (hP ▸ hsame)
+        (by intro w'' _ h; rw [hoth] at h; cases h) hig
+    · obtain ⟨v, hvP, hvo⟩ := List.any_eq_true.1 hoth
+      rw [← hP] at hvP
+      obtain ⟨_, x, hRx, hxv⟩ := mem_profile.1 hvP
+      refine ⟨fun y => if y = w' then x else σ y, satB_update_fresh e σ b w' x hfresh hsb, g, hg, ?_⟩
+      refine mBranch_nodes_sat hT hM hm ⟨.op1 mo, ng, d⟩ mo hmo A var e _ w0 (some w') br g ?_ ?_ hig
+      · simp only [hw0, ↓reduceIte]; rw [hP]; exact hsame
+      · intro w'' h _
+        simp at h; subst h
+        simp only [hw0, ↓reduceIte, hxv]
+        exact ⟨hRx, hvo⟩
+  | eachWorld =>
+    simp only [hw] at hwit hr
+    obtain ⟨w', rfl, hacc⟩ := hwit
+    have hR : M.R (σ w0) (σ w') := hsb _ hacc
+    split at hr
+    · next br hbr' =>
+      simp only [Bool.and_eq_true, List.all_eq_true] at hr
+      have hbr : br ∈ r.branches := by rw [hbr']; simp
+      obtain ⟨g, hg, hig⟩ := mapOpt_mem_fwd hgs br hbr
+      refine ⟨σ, hsb, g, hg, ?_⟩
+      have hvP : eval L M e (σ w') A ∈ P :=
+        hP ▸ mem_profile.2 ⟨eval_mem_vals L hT M hM A e _, σ w', hR, rfl⟩
+      refine mBranch_nodes_sat hT hM hm ⟨.op1 mo, ng, d⟩ mo hmo A var e σ w0 (some w') br g ?_ ?_ hig
+      · -- all nodes are other-world, so the same-world condition is trivial
+        simp only [LogicData.mBranchSame, List.all_eq_true]
+        intro ad had
+        have := (List.all_eq_true.1 hr.1) ad had
+        cases ad with
+        | access => rfl
+        | node nt => simp at this; simp [this]
+      · intro w'' h _
+        simp at h; subst h
+        exact ⟨hR, hr.2 _ hvP⟩
+    · cases hr
+  | newConst => simp [hw] at hr
+  | eachConst => simp [hw] at hr
+
+/-! ### closure -/
+
+theorem mem_litSet {b : Branch} {s : Sent} {w : Option Nat} {l : Lit} (h : l ∈ b.litSet L s w) :
+    Node.sent (if l.negated then s.neg else s) l.des w ∈ b.nodes := by
+  simp only [Branch.litSet, List.mem_filter, Branch.hasNode, List.contains_iff_mem] at h
+  exact h.2
+
+/-- a branch whose literal set on some sentence closes (by a sound closure row) is not satisfied -/
+theorem closing_unsat (hT : L.tablesTotalB = true) (hM : M.Interp L) (hc : L.unsoundClosure = [])
+    {b : Branch} {s : Sent} {w : Option Nat}
+    (hclose : L.closure.lookup (b.litSet L s w) = some true)
+    (e : Env M.D) (σ : Nat → M.W) : ¬ SatB L M e σ b := by
+  intro hs
+  have hmem := lookup_mem hclose
+  have hsat : L.litsSatisfiable (b.litSet L s w) = true := by
+    simp only [LogicData.litsSatisfiable, List.any_eq_true]
+    refine ⟨eval L M e (σ (w.getD 0)) s, eval_mem_vals L hT M hM s e _, ?_⟩
+    simp only [LogicData.litsSatBy, List.all_eq_true]
+    intro l hl
+    have := hs _ (mem_litSet hl)
+    simp only [satNode] at this
+    cases hn : l.negated <;> simp [hn, LogicData.litVal] at this ⊢
+    · exact this
+    · rw [eval_neg] at this; exact this
+  have : b.litSet L s w ∈ L.unsoundClosure := by
+    unfold LogicData.unsoundClosure
+    exact List.mem_map.2 ⟨(_, true), List.mem_filter.2 ⟨hmem, by simp [hsat]⟩, rfl⟩
+  rw [hc] at this; cases this
+
+/-- replacing a branch that is not the satisfied one keeps `SatT` -/
+theorem satT_set_other {t : Tableau} {bi : Nat} {b b0 : Branch} (hb : t[bi]? = some b)
+    (hun : ∀ (e : Env M.D) (σ : Nat → M.W), ¬ SatB L M e σ b) (h : SatT L M t) : SatT L M (t.set bi b0) := by
+  obtain ⟨e, σ, b', hb', hc', hs'⟩ := h
+  have hne : b' ≠ b := by rintro rfl; exact hun e σ hs'
+  have := mem_fork_other (b0 := b0) (extra := []) hb hb' hne
+  exact ⟨e, σ, b', by simpa [Tableau.fork] using this, hc', hs'⟩
+
+/-! ### frame rules -/
+
+theorem frame_of_rule (hf : L.frameRulesOKB = true) {r : FrameRule} (ha : L.frameAllowed r = true) :
+    match r with
+    | .reflexive => L.frame = .T ∨ L.frame = .S4 ∨ L.frame = .S5
+    | .transitive => L.frame = .S4 ∨ L.frame = .S5
+    | .symmetric => L.frame = .S5
+    | .serial => L.frame = .D ∨ L.frame = .T ∨ L.frame = .S4 ∨ L.frame = .S5 := by
+  simp only [LogicData.frameAllowed, List.contains_iff_mem] at ha
+  simp only [LogicData.frameRulesOKB, List.all_eq_true] at hf
+  have := hf _ ha
+  cases r <;> cases hk : L.frame <;> simp [hk, FrameRule.name] at this ⊢
+
+theorem mem_worlds_of_access {b : Branch} {a c : Nat} (h : Node.access a c ∈ b.nodes) :
+    a ∈ b.worlds ∧ c ∈ b.worlds := by
+  constructor <;> exact List.mem_flatMap.2 ⟨_, h, by simp [Node.worldsSem]⟩
+
+theorem frame_step_sound (hM : M.Interp L) (hf : L.frameRulesOKB = true) {t : Tableau} {bi : Nat} {b : Branch}
+    (hb : t[bi]? = some b) (hbc : b.closed = false) {r : FrameRule} (ha : L.frameAllowed r = true)
+    (w1 w2 w3 : Nat) (h : SatT L M t) :
+    (match r with
+     | .reflexive => w1 ∈ b.worlds → SatT L M (t.set bi (b.extend [.access w1 w1] none))
+     | .transitive => Node.access w1 w2 ∈ b.nodes → Node.access w2 w3 ∈ b.nodes →
+          SatT L M (t.set bi (b.extend [.access w1 w3] none))
+     | .symmetric => Node.access w1 w2 ∈ b.nodes → SatT L M (t.set bi (b.extend [.access w2 w1] none))
+     | .serial => w1 ∈ b.worlds → w2 ∉ b.worlds → SatT L M (t.set bi (b.extend [.access w1 w2] none))) := by
+  have hfr := frame_of_rule hf ha
+  have hF := hM.frame
+  cases r with
+  | reflexive =>
+    intro _
+    refine satT_set hb hbc (by simp [Node.isClosure]) ?_ h
+    intro e σ hs
+    refine ⟨e, σ, hs, ?_⟩
+    simp only [List.mem_singleton, forall_eq, satNode]
+    simp only at hfr
+    rcases hfr with hk | hk | hk <;> simp [hk, Struct.FrameOK] at hF
+    · exact hF _
+    · exact hF.1 _
+    · exact hF.1 _
+  | transitive =>
+    intro h12 h23
+    refine satT_set hb hbc (by simp [Node.isClosure]) ?_ h
+    intro e σ hs
+    refine ⟨e, σ, hs, ?_⟩
+    simp only [List.mem_singleton, forall_eq, satNode]
+    have r12 : M.R (σ w1) (σ w2) := hs _ h12
+    have r23 : M.R (σ w2) (σ w3) := hs _ h23
+    simp only at hfr
+    rcases hfr with hk | hk <;> simp [hk, Struct.FrameOK] at hF
+    · exact hF.2 _ _ _ r12 r23
+    · exact hF.2.1 _ _ _ r12 r23
+  | symmetric =>
+    intro h12
+    refine satT_set hb hbc (by simp [Node.isClosure]) ?_ h
+    intro e σ hs
+    refine ⟨e, σ, hs, ?_⟩
+    simp only [List.mem_singleton, forall_eq, satNode]
+    have r12 : M.R (σ w1) (σ w2) := hs _ h12
+    simp only at hfr
+    simp [hfr, Struct.FrameOK] at hF
+    exact hF.2.2 _ _ r12
+  | serial =>
+    intro h1 h2
+    refine satT_set hb hbc (by simp [Node.isClosure]) ?_ h
+    intro e σ hs
+    have hsucc : ∃ x, M.R (σ w1) x := by
+      simp only at hfr
+      rcases hfr with hk | hk | hk | hk <;> simp [hk, Struct.FrameOK] at hF
+      · exact hF _
+      · exact ⟨_, hF _⟩
+      · exact ⟨_, hF.1 _⟩
+      · exact ⟨_, hF.1 _⟩
+    obtain ⟨x, hx⟩ := hsucc
+    refine ⟨e, fun y => if y = w2 then x else σ y, satB_update_fresh e σ b w2 x h2 hs, ?_⟩
+    have hne : w1 ≠ w2 := by rintro rfl; exact h2 h1
+    simp only [List.mem_singleton, forall_eq, satNode, hne, ↓reduceIte]
+    exact hx
+
+/-! ### identity / existence (classical family) -/
+
+theorem identOK_facts (hi : L.identOKB = true) (hc : L.closesSelfIdNeg = true ∨ L.closesNonExist = true) :
+    (∀ v ∈ L.T.vals, L.T.isDes v = true → v = .T) ∧ L.T.isDes (L.T.f1 .neg .T) = false := by
+  simp only [LogicData.identOKB, Bool.or_eq_true, Bool.not_eq_true', Bool.and_eq_true, List.all_eq_true,
+    beq_iff_eq] at hi
+  rcases hi with hi | hi
+  · rcases hc with hc | hc <;> simp [hc] at hi
+  · refine ⟨?_, hi.1.1.2⟩
+    intro v hv hd
+    have := hi.1.1.1 v hv
+    simpa [hd] using this
+
+theorem satV_not_false {d : Option Bool} (hd : d ≠ some false) (v : V) : L.satV d v = L.T.isDes v := by
+  cases d with
+  | none => rfl
+  | some b => cases b <;> simp [LogicData.satV] at hd ⊢
+
+/-- `¬ a = a` is never satisfied in a classical structure -/
+theorem selfId_unsat (hM : M.Interp L) (hi : L.identOKB = true) (hc : L.closesSelfIdNeg = true)
+    {b : Branch} {x : Param} {d : Option Bool} {w : Option Nat} (hd : d ≠ some false)
+    (hmem : Node.sent (.op1 .neg (.pred Pred.identity [x, x])) d w ∈ b.nodes)
+    (e : Env M.D) (σ : Nat → M.W) : ¬ SatB L M e σ b := by
+  intro hs
+  have hsat := hs _ hmem
+  have hcl := hM.classical (Or.inl hc)
+  obtain ⟨_, hneg⟩ := identOK_facts hi (Or.inl hc)
+  simp only [satNode] at hsat
+  rw [satV_not_false hd] at hsat
+  have : eval L M e (σ (w.getD 0)) (.op1 .neg (.pred Pred.identity [x, x])) = L.T.f1 .neg .T := by
+    simp [eval, Op1.isModal, (hcl.1 _ _ _).2 rfl]
+  rw [this, hneg] at hsat; cases hsat
+
+/-- `¬ E!a` is never satisfied in a classical structure -/
+theorem nonExist_unsat (hM : M.Interp L) (hi : L.identOKB = true) (hc : L.closesNonExist = true)
+    {b : Branch} {x : Param} {d : Option Bool} {w : Option Nat} (hd : d ≠ some false)
+    (hmem : Node.sent (.op1 .neg (.pred Pred.existence [x])) d w ∈ b.nodes)
+    (e : Env M.D) (σ : Nat → M.W) : ¬ SatB L M e σ b := by
+  intro hs
+  have hsat := hs _ hmem
+  have hcl := hM.classical (Or.inr hc)
+  obtain ⟨_, hneg⟩ := identOK_facts hi (Or.inr hc)
+  simp only [satNode] at hsat
+  rw [satV_not_false hd] at hsat
+  have : eval L M e (σ (w.getD 0)) (.op1 .neg (.pred Pred.existence [x])) = L.T.f1 .neg .T := by
+    simp [eval, Op1.isModal, hcl.2]
+  rw [this, hneg] at hsat; cases hsat
+
+/-- identity indiscernability: substituting one side of a true identity for the other in a
+    predication at the same world keeps its value -/
+theorem ident_subst_sat (hT : L.tablesTotalB = true) (hM : M.Interp L) (hi : L.identOKB = true)
+    (hc : L.closesSelfIdNeg = true)
+    {pa pb : Param} {w : Option Nat} {pr : Pred} {ps : List Param}
+    (e : Env M.D) (σ : Nat → M.W)
+    (hid : satNode L M e σ (.sent (.pred Pred.identity [pa, pb]) none w))
+    (hp : satNode L M e σ (.sent (.pred pr ps) none w)) :
+    satNode L M e σ (.sent (.pred pr (ps.map (Param.subst pb pa))) none w) ∧
+    satNode L M e σ (.sent (.pred pr (ps.map (Param.subst pa pb))) none w) := by
+  have hcl := hM.classical (Or.inl hc)
+  obtain ⟨hdes, _⟩ := identOK_facts hi (Or.inl hc)
+  simp only [satNode, LogicData.satV] at hid hp ⊢
+  have hv := eval_mem_vals L hT M hM (.pred Pred.identity [pa, pb]) e (σ (w.getD 0))
+  have hT' := hdes _ hv hid
+  simp only [eval, List.map_cons, List.map_nil] at hT'
+  have heq : e.den pa = e.den pb := (hcl.1 _ _ _).1 hT'
+  have h1 : (ps.map (Param.subst pb pa)).map e.den = ps.map e.den := by
+    rw [List.map_map]; apply List.map_congr_left; intro p _
+    simp only [Function.comp, Param.subst]; split
+    · next h => subst h; exact heq.symm
+    · rfl
+  have h2 : (ps.map (Param.subst pa pb)).map e.den = ps.map e.den := by
+    rw [List.map_map]; apply List.map_congr_left; intro p _
+    simp only [Function.comp, Param.subst]; split
+    · next h => subst h; exact heq
+    · rfl
+  simp only [eval] at hp ⊢
+  rw [h1, h2]; exact ⟨hp, hp⟩
+
+/-! ### the step theorem -/
+
+/-- the decidable side conditions of the soundness theorem (per-logic obligations) -/
+structure LogicData.SoundOK (L : LogicData) : Prop where
+  total : L.tablesTotalB = true
+  rules : L.unsoundRules = []
+  closure : L.unsoundClosure = []
+  frames : L.frameRulesOKB = true
+  ident : L.identOKB = true
+  trunk : L.trunkOKB = true
+  vocab : L.vocabOKB = true
+
+/-- no quantifier rules in the table (temporary restriction of the generic theorem) -/
+def LogicData.noQuantRules (L : LogicData) : Bool :=
+  L.rules.all fun (k, _) => match k.shape with | .quant _ => false | _ => true
+
+theorem instAdds_not_closure {whole l : Sent} {r raw : Option Sent} {var : Nat × Nat} {w wo : Option Nat}
+    {br : List AddT} {g : List Node} (h : instAdds whole l r raw var w wo br = some g) :
+    ∀ n ∈ g, n.isClosure = false := by
+  intro n hn
+  obtain ⟨ad, _, hf⟩ := mapOpt_mem_bwd h n hn
+  cases ad with
+  | access =>
+    simp only at hf
+    split at hf
+    · simp at hf; subst hf; rfl
+    · cases hf
+  | node nt =>
+    simp only at hf
+    split at hf
+    · cases hf
+    · split at hf
+      · split at hf
+        · simp at hf; subst hf; rfl
+        · cases hf
+      · simp at hf; subst hf; rfl
+
+theorem groups_not_closure {whole l : Sent} {r raw : Option Sent} {var : Nat × Nat} {w wo : Option Nat}
+    {brs : List (List AddT)} {gs : List (List Node)}
+    (h : mapOpt (instAdds whole l r raw var w wo) brs = some gs) :
+    ∀ g ∈ gs, ∀ n ∈ g, n.isClosure = false := by
+  intro g hg
+  obtain ⟨br, _, hf⟩ := mapOpt_mem_bwd h g hg
+  exact instAdds_not_closure hf
+
+theorem getElem?_mem_nodes {b : Branch} {n : Nat} {nd : Node} (h : b.nodes[n]? = some nd) : nd ∈ b.nodes :=
+  List.mem_of_getElem? h
+
+theorem rule_mem_of_rule? {k : RuleKey} {r : Rule} (h : L.rule? k = some r) : (k, r) ∈ L.rules :=
+  lookup_mem h
+
+theorem vocab_modal (hv : L.vocabOKB = true) {k : RuleKey} {r : Rule} (h : L.rule? k = some r)
+    {o : Op1} (hk : k.shape = .op1 o) (ho : o.isModal = true) : L.modal = true := by
+  have := (List.all_eq_true.1 hv) _ (rule_mem_of_rule? h)
+  simp [hk, ho] at this; exact this
+
+theorem noQuant_shape (hq : L.noQuantRules = true) {k : RuleKey} {r : Rule} (h : L.rule? k = some r)
+    {q : Quant} : k.shape ≠ .quant q := by
+  intro hk
+  have := (List.all_eq_true.1 hq) _ (rule_mem_of_rule? h)
+  simp [hk] at this
+
+/-- a table-rule step on a satisfied branch has a satisfied extension -/
+theorem rule_ext_sat (hL : L.SoundOK) (hnq : L.noQuantRules = true) (hM : M.Interp L)
+    {b : Branch} {s : Sent} {d : Option Bool} {w : Option Nat} {c : Option (Nat × Nat)} {wo : Option Nat}
+    {r : Rule} {gs : List (List Node)}
+    (hnode : Node.sent s d w ∈ b.nodes)
+    (hg : L.ruleGroups b s d w c wo = some (r, gs))
+    (e : Env M.D) (σ : Nat → M.W) (hsb : SatB L M e σ b) :
+    (∀ g ∈ gs, ∀ n ∈ g, n.isClosure = false) ∧
+    ∃ (e' : Env M.D) (σ' : Nat → M.W), SatB L M e' σ' b ∧ ∃ g ∈ gs, ∀ n ∈ g, satNode L M e' σ' n := by
+  unfold LogicData.ruleGroups at hg
+  split at hg
+  · cases hg
+  · next sh ng whole hd =>
+    split at hg
+    · next r' l0 hr hl0 =>
+      split at hg
+      · cases hg
+      · next hmodw =>
+        split at hg
+        · next gs' hwg =>
+          simp at hg
+          obtain ⟨rfl, rfl⟩ := hg
+          have hsound := ruleSound_of_nil hL.rules hr
+          have hshape := decomp_shape hd
+          cases sh with
+          | quant q => exact absurd rfl (noQuant_shape hnq hr (q := q))
+          | op2 o =>
+            have hwn : r'.witness = .none := by
+              simp only [LogicData.ruleSoundB, Bool.and_eq_true, beq_iff_eq] at hsound; exact hsound.1
+            unfold witnessGroups at hwg
+            simp only [hwn] at hwg
+            split at hwg
+            · cases hwg
+            · refine ⟨groups_not_closure hwg, e, σ, hsb, ?_⟩
+              exact op_rule_sound hL.total hM hd (by simp [Shape.isTF]) hsound hl0 _ _ hwg e σ (hsb _ hnode)
+          | op1 o =>
+            by_cases hmo : o.isModal = true
+            · -- modal rule
+              have hm := vocab_modal hL.vocab hr rfl hmo
+              simp [Shape.isModalShape, hmo] at hmodw
+              obtain ⟨w0, rfl⟩ := Option.isSome_iff_exists.1 (by cases w <;> simp_all : w.isSome = true)
+              cases whole <;> simp [Shape.of] at hshape
+              rename_i o' A
+              obtain rfl := hshape.symm
+              simp [Sent.lhs?] at hl0; subst hl0
+              unfold witnessGroups at hwg
+              cases hw : r'.witness with
+              | none =>
+                simp only [hw] at hwg
+                split at hwg
+                · cases hwg
+                · next hcw =>
+                  simp at hcw
+                  obtain ⟨_, rfl⟩ : c = none ∧ wo = none := by
+                    cases c <;> cases wo <;> simp_all
+                  refine ⟨groups_not_closure hwg, ?_⟩
+                  obtain ⟨σ', h1, h2⟩ := modal_rule_sound hL.total hM hm hmo hd hsound b hnode _ none
+                    (by simp [hw]) (by simpa [Sent.rhs?, Sent.qraw] using hwg) e σ hsb
+                  exact ⟨e, σ', h1, h2⟩
+              | newWorld =>
+                simp only [hw] at hwg
+                split at hwg
+                · next _ w' w0' hw' =>
+                  split at hwg
+                  · cases hwg
+                  · next hcond =>
+                    simp at hcond
+                    refine ⟨groups_not_closure hwg, ?_⟩
+                    obtain ⟨σ', h1, h2⟩ := modal_rule_sound hL.total hM hm hmo hd hsound b hnode _ (some w')
+                      (by simp [hw]; exact hcond.1) hwg e σ hsb
+                    exact ⟨e, σ', h1, h2⟩
+                · cases hwg
+              | eachWorld =>
+                simp only [hw] at hwg
+                split at hwg
+                · next _ w' w0' hw' =>
+                  split at hwg
+                  · cases hwg
+                  · next hcond =>
+                    simp at hcond
+                    simp at hw'; subst hw'
+                    refine ⟨groups_not_closure hwg, ?_⟩
+                    obtain ⟨σ', h1, h2⟩ := modal_rule_sound hL.total hM hm hmo hd hsound b hnode _ (some w')
+                      (by simp [hw]; simpa [Branch.hasAccess] using hcond.1) hwg e σ hsb
+                    exact ⟨e, σ', h1, h2⟩
+                · cases hwg
+              | newConst =>
+                exfalso
+                have hn := hsb _ hnode
+                simp only [LogicData.ruleSoundB, hmo, ↓reduceIte, hw, List.all_eq_true, Bool.or_false,
+                  Bool.not_eq_true'] at hsound
+                have := hsound _ (mProfiles_mem hM hL.total e (σ w0) A)
+                simp only [satNode, Option.getD_some] at hn
+                rw [eval_decomp hd, eval_modal hm e _ o hmo A] at hn
+                simp [LogicData.nodeSatM, hn] at this
+              | eachConst =>
+                exfalso
+                have hn := hsb _ hnode
+                simp only [LogicData.ruleSoundB, hmo, ↓reduceIte, hw, List.all_eq_true, Bool.or_false,
+                  Bool.not_eq_true'] at hsound
+                have := hsound _ (mProfiles_mem hM hL.total e (σ w0) A)
+                simp only [satNode, Option.getD_some] at hn
+                rw [eval_decomp hd, eval_modal hm e _ o hmo A] at hn
+                simp [LogicData.nodeSatM, hn] at this
+            · have hmo' : o.isModal = false := by simpa using hmo
+              have hwn : r'.witness = .none := by
+                simp only [LogicData.ruleSoundB, hmo', Bool.false_eq_true, ↓reduceIte, Bool.and_eq_true,
+                  beq_iff_eq] at hsound
+                exact hsound.1
+              unfold witnessGroups at hwg
+              simp only [hwn] at hwg
+              split at hwg
+              · cases hwg
+              · refine ⟨groups_not_closure hwg, e, σ, hsb, ?_⟩
+                exact op_rule_sound hL.total hM hd (by simp [Shape.isTF, hmo']) hsound hl0 _ _ hwg e σ (hsb _ hnode)
+        · cases hg
+    · cases hg
+
+theorem closeB_eq (b : Branch) : closeB b = b.extend [.flag "closure"] none := rfl
+
+/-- every legal step preserves "some open branch is satisfied" -/
+theorem step_sound (hL : L.SoundOK) (hnq : L.noQuantRules = true) (hM : M.Interp L)
+    {t t' : Tableau} (s : Step) (hs : applyStep L t s = some t') (h : SatT L M t) : SatT L M t' := by
+  unfold applyStep at hs
+  split at hs
+  · cases hs
+  · next b hb =>
+    split at hs
+    · cases hs
+    · next hbc =>
+      have hbc : b.closed = false := by simpa using hbc
+      cases s with
+      | rule bi n c wo =>
+        simp only [applyAt, Step.branch] at hs hb
+        split at hs
+        · next sn d w hnd =>
+          split at hs
+          · next r g0 rest hg =>
+            simp at hs; subst hs
+            have hnode := getElem?_mem_nodes hnd
+            have hall := fun e σ hsb => rule_ext_sat (M := M) hL hnq hM hnode hg e σ hsb
+            -- closure-freeness does not depend on the interpretation; get it from any satisfied branch, or directly
+            obtain ⟨e0, σ0, b0, hb0, hc0, hs0⟩ := h
+            by_cases hne : b0 = b
+            · subst hne
+              exact satT_fork hb hbc (hall e0 σ0 hs0).1 (fun e σ hsb => (hall e σ hsb).2) ⟨e0, σ0, b0, hb0, hc0, hs0⟩
+            · exact ⟨e0, σ0, b0, mem_fork_other hb hb0 hne, hc0, hs0⟩
+          · cases hs
+        · cases hs
+      | close bi sn w =>
+        simp only [applyAt, Step.branch] at hs hb
+        split at hs
+        · next hcl =>
+          simp at hs; subst hs
+          exact satT_set_other hb (closing_unsat hL.total hM hL.closure (by simpa using hcl)) h
+        · cases hs
+      | closeIdent bi n =>
+        simp only [applyAt, Step.branch] at hs hb
+        split at hs
+        · next nd hnd =>
+          split at hs
+          · next hic =>
+            simp at hs; subst hs
+            refine satT_set_other hb ?_ h
+            have hmem := getElem?_mem_nodes hnd
+            unfold LogicData.identCloses at hic
+            split at hic
+            · next p x y d w =>
+              simp only [Bool.and_eq_true, beq_iff_eq, bne_iff_ne, ne_eq] at hic
+              obtain ⟨⟨⟨hc, rfl⟩, rfl⟩, hd⟩ := hic
+              exact selfId_unsat hM hL.ident hc hd hmem
+            · next p x d w =>
+              simp only [Bool.and_eq_true, beq_iff_eq, bne_iff_ne, ne_eq] at hic
+              obtain ⟨⟨hc, rfl⟩, hd⟩ := hic
+              exact nonExist_unsat hM hL.ident hc hd hmem
+            · cases hic
+          · cases hs
+        · cases hs
+      | frame bi r w1 w2 w3 =>
+        simp only [applyAt, Step.branch] at hs hb
+        split at hs
+        · cases hs
+        · next hfa =>
+          have hfa : L.frameAllowed r = true := by simpa using hfa
+          split at hs
+          · next nd hfr =>
+            simp at hs; subst hs
+            have := frame_step_sound hM hL.frames hb hbc hfa w1 w2 w3 h
+            unfold frameAdd at hfr
+            cases r <;> simp only at hfr this <;> split at hfr <;> simp at hfr <;> subst hfr
+            · next hw => exact this (by simpa using hw)
+            · next hw => simp [Branch.hasAccess] at hw; exact this hw.1 hw.2
+            · next hw => simp [Branch.hasAccess] at hw; exact this hw
+            · next hw => simp at hw; exact this hw.1 hw.2
+          · cases hs
+      | ident bi i p =>
+        simp only [applyAt, Step.branch] at hs hb
+        split at hs
+        · cases hs
+        · next hcond =>
+          simp at hcond
+          split at hs
+          · next ni np hni hnp =>
+            split at hs
+            · next nd hid =>
+              simp at hs; subst hs
+              have hmi := getElem?_mem_nodes hni
+              have hmp := getElem?_mem_nodes hnp
+              unfold identAdd at hid
+              split at hid
+              · next q pa pb w pr ps w' =>
+                split at hid
+                · cases hid
+                · next hc2 =>
+                  simp at hc2
+                  obtain ⟨⟨rfl, _⟩, rfl⟩ := hc2
+                  refine satT_set hb hbc ?_ ?_ h
+                  · intro n hn
+                    split at hid
+                    · simp at hid; subst hid; simp at hn; subst hn; rfl
+                    · split at hid
+                      · simp at hid; subst hid; simp at hn; subst hn; rfl
+                      · cases hid
+                  · intro e σ hsb
+                    refine ⟨e, σ, hsb, ?_⟩
+                    have := ident_subst_sat hL.total hM hL.ident hcond.1 e σ (hsb _ hmi) (hsb _ hmp)
+                    intro n hn
+                    split at hid
+                    · simp at hid; subst hid; simp at hn; subst hn; exact this.1
+                    · split at hid
+                      · simp at hid; subst hid; simp at hn; subst hn; exact this.2
+                      · cases hid
+              · cases hid
+            · cases hs
+          · cases hs
+      | quit bi name =>
+        simp only [applyAt, Step.branch] at hs hb
+        split at hs
+        · cases hs
+        · next hname =>
+          simp at hs; subst hs
+          refine satT_set hb hbc ?_ ?_ h
+          · intro n hn; simp at hn; subst hn; simpa [Node.isClosure] using hname
+          · intro e σ hsb; exact ⟨e, σ, hsb, by intro n hn; simp at hn; subst hn; trivial⟩
+
+/-- soundness along any derivation -/
+theorem deriv_sound (hL : L.SoundOK) (hnq : L.noQuantRules = true) (hM : M.Interp L)
+    {t t' : Tableau} (hd : Deriv L t t') (h : SatT L M t) : SatT L M t' := by
+  induction hd with
+  | refl => exact h
+  | step s hs _ ih => exact ih (step_sound hL hnq hM s hs h)
+
+theorem not_satT_of_allClosed {t : Tableau} (hc : t.allClosed = true) : ¬ SatT L M t := by
+  rintro ⟨e, σ, b, hb, hbc, _⟩
+  have := (List.all_eq_true.1 hc) b hb
+  rw [hbc] at this; cases this
+
+/-- a countermodel satisfies the trunk -/
+theorem trunk_sat (hL : L.SoundOK) (hM : M.Interp L) (arg : Argument) (e : Env M.D) (w0 : M.W)
+    (hc : Countermodel L M e w0 arg) : SatT L M (trunk L arg) := by
+  have htr := hL.trunk
+  simp only [LogicData.trunkOKB, Bool.and_eq_true, bne_iff_ne, ne_eq] at htr
+  obtain ⟨hprem, hconc⟩ := htr
+  refine ⟨e, fun _ => w0, _, List.mem_singleton.2 rfl, ?_, ?_⟩
+  · simp [Branch.closed, Node.isClosure]
+  · intro n hn
+    simp only [List.mem_append, List.mem_map, List.mem_singleton] at hn
+    rcases hn with ⟨p, hp, rfl⟩ | rfl
+    · simp only [satNode]
+      rw [satV_not_false hprem]
+      exact hc.1 p hp
+    · simp only [satNode]
+      split at hconc
+      · next hneg =>
+        simp only [Bool.and_eq_true, bne_iff_ne, ne_eq, List.all_eq_true, Bool.or_eq_true] at hconc
+        rw [if_pos hneg, satV_not_false hconc.1, eval_neg]
+        have hv := eval_mem_vals L hL.total M hM arg.conclusion e w0
+        rcases hconc.2 _ hv with h | h
+        · rw [hc.2] at h; cases h
+        · exact h
+      · next hneg =>
+        simp at hconc
+        rw [if_neg hneg, hconc]
+        simp [LogicData.satV, hc.2]
+
+
 end Ptx
